@@ -178,3 +178,19 @@ def check(ctx):
         bad = True
     if not bad:
         ctx.ok('C14.4', ctx.site(cb, sw[0][0]), 'per-class markers pairwise distinct: %s' % classes, sample=str(classes))
+
+
+
+_check_inner = check
+
+
+def check(ctx):
+    _check_inner(ctx)
+    # C14.5: "obscuring any present element gives a result that is equivalent but not identical": each obscuring action replaces a
+    # present element by an element of an obscured class (so its marker changes) - the action arms, elide() and compress() per case.
+    from .. import obscure
+    obscure.check_obscure_region(ctx, 'C14.5')
+    obscure.check_elide_primitive(ctx, 'C14.5')
+    if ctx.has('compress'):
+        from .C13 import check_compress_table
+        check_compress_table(ctx, 'C14.5', 'C14.5')
